@@ -4,18 +4,19 @@ CONSTANTS
   NamedLo = 3
   DynLo = 5
   WksAddr = 2
-  Names = {"wk", "n1", "n2"}
-  MaxSock <- Max31
-  KindSeq <- SeqNamesQ
-  Roles <- NameOps
-  Msgs = {1, 2}
-  BindAddrs <- BA
-  Dsts = {2, 3, 5, 6}
+  Names = {"n1"}
+  MaxSock <- Max32
+  KindSeq <- SeqLife
+  Roles <- LifeOps
+  Msgs = {1}
+  BindAddrs <- BAL
+  Dsts = {3, 5}
   RecvBuf = 2
   Backlog = 1
   WksCheck = TRUE
   SnlClean = TRUE
   KeepDead = FALSE
+VIEW View
 INVARIANT OneAddrPerSocket
 INVARIANT NoDoubleAlloc
 INVARIANT RangesRespected
